@@ -11,7 +11,7 @@ from harness.common import Failure, Spec, coq_list
 
 # case = {"variant": "gen"|"coro", "body": stmt, "outs": [["ok", z] | ["err", n]], "cancs": [canc], "pre": [d],
 #         "sched": [["fire", d] | ["cancel"]]}     canc = ["nothing"] | ["succeed", z] | ["fail", n]
-# stmt = ["await", d] | ["yield", z] | ["mark", n] | ["raise", n] | ["return", z] | ["seq", a, b]
+# stmt = ["await", d] | ["yield", z] | ["mark", n] | ["raise", n] | ["return", z] | ["returnvalue", z] | ["call", body] | ["seq", a, b]
 #      | ["try", body, handler] | ["finally", body, fin] | ["loop", n, body]
 
 
@@ -28,7 +28,7 @@ class Tok:
         self.d = d
 
 
-def _src(s, ind, variant):
+def _src(s, ind, variant, defs):
     pad = "    " * ind
     k = s[0]
     if k == "await":
@@ -42,24 +42,43 @@ def _src(s, ind, variant):
         return [f"{pad}raise UserErr({s[1]})"]
     if k == "return":
         return [f"{pad}return {s[1]}"]
+    if k == "returnvalue":
+        return [f"{pad}returnValue({s[1]})"]
     if k == "seq":
-        return _src(s[1], ind, variant) + _src(s[2], ind, variant)
+        return _src(s[1], ind, variant, defs) + _src(s[2], ind, variant, defs)
     if k == "try":
-        return ([f"{pad}try:"] + _src(s[1], ind + 1, variant) + [f"{pad}except Exception as e:", f"{pad}    log.append('x' + canon_exc(e))"]
-                + _src(s[2], ind + 1, variant))
+        return ([f"{pad}try:"] + _src(s[1], ind + 1, variant, defs)
+                + [f"{pad}except Exception as e:", f"{pad}    log.append('x' + canon_exc(e))"]
+                + _src(s[2], ind + 1, variant, defs))
     if k == "finally":
-        return [f"{pad}try:"] + _src(s[1], ind + 1, variant) + [f"{pad}finally:"] + _src(s[2], ind + 1, variant)
+        return [f"{pad}try:"] + _src(s[1], ind + 1, variant, defs) + [f"{pad}finally:"] + _src(s[2], ind + 1, variant, defs)
     if k == "loop":
-        return [f"{pad}for _ in range({s[1]}):"] + _src(s[2], ind + 1, variant)
+        return [f"{pad}for _ in range({s[1]}):"] + _src(s[2], ind + 1, variant, defs)
+    if k == "call":
+        # a nested @inlineCallbacks function (coroutine under ensureDeferred) with this body
+        idx = len(defs)
+        defs.append(None)
+        name = f"f{idx + 1}"
+        defs[idx] = _fundef(name, s[1], variant, defs) + ([f"{name} = wrap({name})"] if variant == "gen" else [])
+        rhs = f"(yield {name}(D, log))" if variant == "gen" else f"await wrap({name}(D, log))"
+        return [f"{pad}x = {rhs}", f"{pad}log.append('v' + canon(x))"]
     raise ValueError(s)
 
 
-def source(body, variant):
-    head = "def f(D, log):" if variant == "gen" else "async def f(D, log):"
-    lines = [head]
+def _fundef(name, body, variant, defs):
+    lines = [f"def {name}(D, log):" if variant == "gen" else f"async def {name}(D, log):"]
     if variant == "gen":
         lines += ["    if False:", "        yield None"]
-    return "\n".join(lines + _src(body, 1, variant)) + "\n"
+    return lines + _src(body, 1, variant, defs)
+
+
+def source(body, variant):
+    defs = []
+    main = _fundef("f", body, variant, defs)
+    out = []
+    for d in defs:
+        out += d + [""]
+    return "\n".join(out + main) + "\n"
 
 
 def canon(x):
@@ -75,8 +94,18 @@ def canon_exc(e):
     return "?" + type(e).__name__
 
 
-def compile_f(body, variant):
-    ns = {"UserErr": UserErr, "canon": canon, "canon_exc": canon_exc}
+class OracleReturn(BaseException):
+    def __init__(self, value):
+        self.value = value
+
+
+def _oracle_return_value(v):
+    raise OracleReturn(v)
+
+
+def compile_f(body, variant, wrap=None, return_value=None):
+    ns = {"UserErr": UserErr, "canon": canon, "canon_exc": canon_exc,
+          "wrap": wrap or (lambda x: x), "returnValue": return_value or _oracle_return_value}
     exec(compile(source(body, variant), f"<c05-{variant}>", "exec"), ns)
     return ns["f"]
 
@@ -112,10 +141,13 @@ def impl(case) -> str:
 
     for d in case["pre"]:
         fire(d)
-    f = compile_f(case["body"], case["variant"])
+    import warnings
+    warnings.filterwarnings("ignore", category=DeprecationWarning)      # returnValue is deprecated
     if case["variant"] == "gen":
+        f = compile_f(case["body"], "gen", wrap=defer.inlineCallbacks, return_value=defer.returnValue)
         res = defer.inlineCallbacks(f)(D, log)
     else:
+        f = compile_f(case["body"], "coro", wrap=defer.ensureDeferred)
         res = defer.ensureDeferred(f(D, log))
     out = []
     res.addCallbacks(lambda v: out.append("R:" + canon(v)), lambda fl: out.append("R:" + canon_exc(fl.value)))
@@ -140,8 +172,9 @@ def sync_run(case):
     n = len(case["outs"])
     toks = [Tok(d) for d in range(n)]
     cancs = _cancs(case)
+    import types
     log = []
-    g = f(toks, log)
+    frames = [f(toks, log)]       # nested calls are ordinary calls: a stack of generators
     fired = set(case["pre"])
     cancelled, taken = set(), set()
     st = {"on": None, "res": None}
@@ -166,16 +199,27 @@ def sync_run(case):
             else:
                 exc = defer.CancelledError() if o[1] == "X" else o[1]
         while True:
+            g = frames[-1]
             try:
                 y = g.throw(exc) if exc is not None else g.send(send)
-            except StopIteration as e:
-                st["res"] = "R:" + canon(e.value)
-                return
+            except (StopIteration, OracleReturn) as e:
+                frames.pop()
+                if not frames:
+                    st["res"] = "R:" + canon(e.value)
+                    return
+                send, exc = e.value, None
+                continue
             except Exception as e:          # noqa: BLE001 - the function's uncaught exception is its outcome
-                st["res"] = "R:" + canon_exc(e)
-                return
+                frames.pop()
+                if not frames:
+                    st["res"] = "R:" + canon_exc(e)
+                    return
+                send, exc = None, e
+                continue
             send, exc = None, None
-            if isinstance(y, Tok):
+            if isinstance(y, types.GeneratorType):
+                frames.append(y)
+            elif isinstance(y, Tok):
                 if y.d not in fired:
                     st["on"] = y.d
                     return
@@ -205,10 +249,11 @@ def sync_run(case):
             resume(outcome(d))
     snap = list(log)
     if st["res"] is None:
-        try:
-            g.close()
-        except BaseException:     # a finally clause that yields again, raises, ... (cleanup only)
-            pass
+        for g in reversed(frames):
+            try:
+                g.close()
+            except BaseException:     # a finally clause that yields again, raises, ... (cleanup only)
+                pass
         return snap, "S"
     return snap, st["res"]
 
@@ -249,13 +294,17 @@ def _rand_stmt(rng, depth, nd, fresh=None):
             return ["mark", rng.randrange(10)]
         if r2 < 0.9:
             return ["raise", rng.randrange(20, 25)]
+        if r2 < 0.94 and fresh is None:
+            return ["returnvalue", rng.randrange(60, 65)]
         return ["return", rng.randrange(40, 45)]
     if r < 0.6:
         return ["seq", _rand_stmt(rng, depth - 1, nd, fresh), _rand_stmt(rng, depth - 1, nd, fresh)]
     if r < 0.75:
         return ["try", _rand_stmt(rng, depth - 1, nd, fresh), _rand_stmt(rng, depth - 1, nd, fresh)]
-    if r < 0.9:
+    if r < 0.85:
         return ["finally", _rand_stmt(rng, depth - 1, nd, fresh), _rand_stmt(rng, depth - 1, nd, fresh)]
+    if r < 0.93:
+        return ["call", _rand_stmt(rng, depth - 1, nd, fresh)]
     if fresh is not None:
         return ["loop", rng.randrange(0, 3), ["mark", rng.randrange(10)]]
     return ["loop", rng.randrange(0, 4), _rand_stmt(rng, depth - 1, nd, fresh)]
@@ -286,6 +335,8 @@ def gen(rng, tier):
         ["seq", ["loop", 2, ["await", 0]], ["await", 1]],
         ["finally", ["try", ["await", 0], ["return", 4]], ["seq", ["await", 1], ["return", 5]]],
         ["seq", ["try", ["await", 0], ["await", 1]], ["seq", ["yield", 7], ["await", 2]]],
+        ["try", ["call", ["seq", ["await", 0], ["seq", ["await", 1], ["returnvalue", 9]]]], ["await", 2]],
+        ["finally", ["call", ["finally", ["call", ["await", 0]], ["await", 1]]], ["mark", 3]],
     ]
     for body in small:
         ds = sorted(set(_awaits(body)))
@@ -355,6 +406,10 @@ def _stmt_coq(s):
         return f"(SReturn ({s[1]})%Z)"
     if k == "loop":
         return f"(SLoop {s[1]} {_stmt_coq(s[2])})"
+    if k == "returnvalue":
+        return f"(SReturnValue ({s[1]})%Z)"
+    if k == "call":
+        return f"(SCall {_stmt_coq(s[1])})"
     name = {"seq": "SSeq", "try": "STry", "finally": "SFinally"}[k]
     return f"({name} {_stmt_coq(s[1])} {_stmt_coq(s[2])})"
 
@@ -397,12 +452,12 @@ SPEC = Spec(
     nontrivial=lambda c, o: len(_awaits(c["body"])) >= 2 and "R:" in o,
     histogram=lambda c, o: c["variant"] + (" finished" if "R:" in o else " suspended"),
     describe=lambda c: {**c, "source": source(c["body"], c["variant"])},
-    rule="six small programs x every success/failure assignment x every arrival order x every pre-fired prefix (with and "
+    rule="eight small programs (two with nested inlineCallbacks calls and returnValue) x every success/failure assignment x every arrival order x every pre-fired prefix (with and "
          "without the last Deferred firing) x {no cancellation, cancel() of the returned Deferred injected at every "
          "position, two cancellations} with random canceller behaviour per Deferred, as generators (quick: 15% sample, "
          "thorough 60%); 350 (quick) / 4000 (thorough) random "
-         "structured programs of depth <= 4 (await, plain yield, mark, raise, return, seq, try/except, try/finally, "
-         "loops) over up to 10 Deferreds, 60% as @inlineCallbacks generators, 40% as coroutines under ensureDeferred "
+         "structured programs of depth <= 4 (await, plain yield, mark, raise, return, returnValue, seq, try/except, "
+         "try/finally, loops, nested calls) over up to 10 Deferreds, 60% as @inlineCallbacks generators, 40% as coroutines under ensureDeferred "
          "(each Deferred awaited once), random pre-fired subset and arrival order, 60% with 1-3 cancellations at random "
          "positions; non-trivial = at least two awaits and "
          "the function ran to completion; distinct by (case, observation)",
